@@ -339,7 +339,10 @@ def el_copy(a, **kw):
 
 def el_where(cond, x=None, y=None):
     if x is None:
-        raise Unsupported("where(cond) single-argument form")
+        c = as_earr(cond)
+        if c.ndim == 1:
+            return (mask_positions(c) if c._es == z3.BoolSort() else el_flatnonzero(c),)      # where(mask) == (flatnonzero(mask),)
+        raise Unsupported("where(cond) single-argument form on rank %d" % c.ndim)
     used("numpy.where(c,x,y): elementwise If")
     return elementwise(lambda c, a, b: z3.If(c, a, b) if a.sort() == b.sort() else
                        z3.If(c, z3.ToReal(a) if a.sort() == z3.IntSort() else a,
